@@ -676,3 +676,28 @@ def stop_waits_for_the_service_thread(w: World, forever: bool, wait: bool, has_t
     check(len(calls("wake")) == 1, "the loop is woken")
     joins = calls("join")
     check(len(joins) == (1 if (has_thread and wait) else 0), "the service thread is joined exactly when there is one and the caller asked to wait")
+
+
+@lemma(props=["C12", "C04", "C02"], configs="none", raises=["Exception"])
+def path_conflict_definition(w: World):
+    """L12.6: the 'both sides renamed the same synced object to different places' test that makes sync() split an entry
+    instead of mirroring one of the renames, stated independently of its body: both sides have a path, the object was
+    synced (both last-synced paths known, and both last-synced hashes known or both sides are folders), it exists on both
+    sides, the remote path is not simply the translation of the local one, each side's path differs from its last-synced
+    path, and it is not a temporary rename made by the engine itself.  Folders count exactly like files."""
+    mgr = w.mgr
+    e = w.entry("e")
+    l, r = e[0], e[1]
+    have_paths = truthy(l.path) and truthy(r.path)
+    synced = ((truthy(l.sync_hash) and truthy(r.sync_hash)) or (l.otype == DIRECTORY and r.otype == DIRECTORY)) \
+        and truthy(l.sync_path) and truthy(r.sync_path)
+    both_exist = l.exists == EXISTS and r.exists == EXISTS
+    got = truthy(mgr.path_conflict(e))
+    if not (have_paths and synced and both_exist):
+        check(not got, "no conflict unless both sides are named, were synced and exist")
+    else:
+        same_place = r.path == mgr.translate(1, l.path)
+        moved_l = not truthy(w.providers[0].paths_match(l.path, l.sync_path, for_display=True))
+        moved_r = not truthy(w.providers[1].paths_match(r.path, r.sync_path, for_display=True))
+        check(got == ((not same_place) and moved_l and moved_r and not e.is_temp_rename),
+              "a conflict exactly when both sides moved it, to places that do not correspond, and not by the engine's own temporary rename")
